@@ -115,7 +115,10 @@ def decode(val, decl, ns, log, guards_cb, name="v"):
             try:
                 object.__setattr__(o, fname, v)
             except (AttributeError, TypeError):
-                setattr(o, fname, v)
+                try:
+                    setattr(o, fname, v)
+                except AttributeError:
+                    pass                 # a read-only property of the real class: the real getter is used
         return o
     if kind == "nt":
         cls = import_class(decl[1])
@@ -194,7 +197,46 @@ def _bytes(val):
     raise ValueError(f"not bytes: {val!r}")
 
 
-OLDS: dict = {}
+class _OldError:
+    def __init__(self, exc):
+        self.exc = exc
+
+
+class _Olds(dict):
+    def __getitem__(self, k):
+        v = dict.__getitem__(self, k)
+        if isinstance(v, _OldError):
+            raise v.exc
+        return v
+
+
+OLDS: dict = _Olds()
+
+
+def _snapshot(v, depth=0):
+    """old(): a deep copy; objects that refuse copying (extension types: keys) are shared, containers are copied around them"""
+    try:
+        return copy.deepcopy(v)
+    except Exception:  # noqa: BLE001
+        pass
+    if depth > 6:
+        return v
+    if isinstance(v, dict):
+        out = type(v)() if type(v) in (dict, _ModelDict) else {}
+        for k, x in v.items():
+            dict.__setitem__(out, k, _snapshot(x, depth + 1))
+        return out
+    if isinstance(v, (list, tuple, set, frozenset)) and type(v) in (list, tuple, set, frozenset):
+        return type(v)(_snapshot(x, depth + 1) for x in v)
+    if hasattr(v, "__dict__") and not isinstance(v, type):
+        try:
+            o = copy.copy(v)
+            for k, x in list(vars(v).items()):
+                object.__setattr__(o, k, _snapshot(x, depth + 1))
+            return o
+        except Exception:  # noqa: BLE001
+            return v
+    return v
 
 
 def _compile_with_old(e):
@@ -236,6 +278,10 @@ def main(path):
                     except Exception as e:  # noqa: BLE001
                         failed_guards.append(f"guard@{pat}: {g} raised {e!r}")
 
+    import collections as _collections
+    import contextlib as _contextlib
+    ns.setdefault("nullcontext", _contextlib.nullcontext)
+    ns.setdefault("deque", _collections.deque)
     ns.update(resolve_class=import_class,
               resolve_module=lambda p: importlib.import_module(p[:-3].replace("/", ".")),
               calls=lambda name: [e for e in log if e.name == name or e.name.endswith("." + name)],
@@ -327,7 +373,10 @@ def main(path):
             for n in ast.walk(ast.parse(e.strip(), mode="eval")):
                 if isinstance(n, ast.Call) and isinstance(n.func, ast.Name) and n.func.id == "old":
                     src = ast.unparse(n.args[0])
-                    olds[src] = copy.deepcopy(eval(src, ns))  # noqa: S307
+                    try:
+                        olds[src] = _snapshot(eval(src, ns))  # noqa: S307
+                    except Exception as ex:  # noqa: BLE001 - undefined in the pre-state: reading it makes the clause fail, as in the engine
+                        olds[src] = _OldError(ex)
 
     class OldProxy:
         def __call__(self, _):
